@@ -34,6 +34,7 @@ SPEC = {
         'AITB.Trie.FMFInv_emplace',
         'AITB.Trie.filtermapF_filter_spec',
         'AITB.Trie.sameIds_sound',
+        'AITB.Trie.reconstruct_factors',
         'AITB.Trie.assign_step',
         'AITB.Trie.permute_subset',
         'AITB.Trie.reconstruct_compatible',
